@@ -175,7 +175,11 @@ def run_suite(suite, tier, seed, key):
                 for i, st in enumerate(j["steps"]):
                     if st["o"]["fault"] and (i >= len(exp) or not exp[i]["fault"]):
                         xf = i + 1; break
-                rec = dict(c=j["c"], form=j["form"], steps=j["steps"], xf=xf)
+                xfin = 0
+                for i, st in enumerate(j["steps"]):
+                    if i < len(exp) and st["o"]["cnt"] and exp[i]["cnt"] and st["o"]["cnt"][3] != exp[i]["cnt"][3]:
+                        xfin = i + 1; break
+                rec = dict(c=j["c"], form=j["form"], steps=j["steps"], xf=xf, xfin=xfin)
                 if j.get("formdiff"): rec["other"] = j["other"]
                 fo.write(json.dumps(rec) + "\n")
         strict = trace_mon(wd, os.path.join(wd, "cand.ndjson"), [], "mon_strict.out")
